@@ -24,7 +24,7 @@ partial def loop (h : IO.FS.Stream) (st : DState) : IO Unit := do
 /-- outcome class of every fault of the scripted router on a healthy two-stop row (read by check/fault_checks.py) -/
 def c20Classes : List String :=
   let dur := [some 0, some 10, some 20]; let dist := [some 0, some 15, some 30]
-  ["refuse", "drop", "truncate", "http500", "empty", "nonjson", "nodurations", "nulls", "fewer", "healthy"].map fun f =>
+  ["refuse", "drop", "truncate", "http500", "http503late", "empty", "nonjson", "nodurations", "nulls", "fewer", "healthy"].map fun f =>
     match lookup [4, 7] 100 (faultReply f dur dist) with
     | .throws => s!"{f} throws"
     | .stops l => s!"{f} stops {l.length}"
